@@ -497,7 +497,11 @@ HIST_DIMS_QUICK = ["mut", "tcbAlter", "qeAlter", "qsig", "bind", "qeSigner", "le
                    "pckCrlRev", "rootCrlRev", "pckCrlSigner", "time"]
 
 
-def _hist_cfg(tier, dims=None):
+def _hist_cfg(tier, dims=None, pairs=True):
+    return _hist_cfg0(tier, dims).replace("HistPairs <- HistPairsRot", "HistPairs <- HistPairsRot" if pairs else "HistPairs <- HistPairsNone")
+
+
+def _hist_cfg0(tier, dims=None):
     if dims is None and tier == "thorough":
         return ('CONSTANTS\n  K = 0\n  Focus = {}\n  OptSet = "levels"\n  NowVals = {"set"}\n  HistDims <- DimNames\n  HistQuick = FALSE\n  HistPairs <- HistPairsRot\n'
                 "SPECIFICATION HSpec\nINVARIANTS StoreIsCurrent HistoryFree ExportCase\nCHECK_DEADLOCK FALSE\n")
@@ -544,7 +548,7 @@ def _hist_cases(cases, tier):
 
 
 def _hist_run(prop, tier, dims=None):
-    return smallfam.run(prop, tier, part=True, case_fn=_hist_cases if (dims is None or prop == "C06") else (lambda cases, t: cases if t == "thorough" else _hist_quick(cases)), mc_module="VerifyHistory_MC", mc_cfg=_hist_cfg(tier, dims), driver="history", trace_module="TdxVerify_Judge", trace_spec="JSpec",
+    return smallfam.run(prop, tier, part=True, case_fn=_hist_cases if (dims is None or prop == "C06") else (lambda cases, t: cases if t == "thorough" else _hist_quick(cases)), mc_module="VerifyHistory_MC", mc_cfg=_hist_cfg(tier, dims, pairs=prop in ("C02", "C12")), driver="history", trace_module="TdxVerify_Judge", trace_spec="JSpec",
                         trace_consts=HIST_TRACE_CONSTS, key_fn=_key_hist, required_actions=("Call",), max_events=24000,
                         assumptions=["worlds of one history share a seed: named keys, certificates and deterministic signatures coincide byte for byte, so a cache or left-over state keyed on shared material would be hit"],
                         rule="every history (first call on the honest twin or on another honest platform, second call on any of the three worlds, all option levels, shared or fresh Options) is run in one process; every call is judged by the single-call properties")
